@@ -178,8 +178,8 @@ pub trait CborSerializable: AsCborValue {
     /// Serialize this object to a vector, consuming it along the way.
     fn to_vec(self) ->« (r:» Result<Vec<u8>>«)
         ensures
-            forall |v: Value| self.enc_rel(Ok::<Value, CoseError>(v)) ==> true,
-            r matches Ok(d) ==> exists |v: Value| #[trigger] self.enc_rel(Ok::<Value, CoseError>(v)) && d@ == crate::vprelude::enc(vv(v)),» {«
+            r matches Ok(d) ==> exists |v: Value| #[trigger] self.enc_rel(Ok::<Value, CoseError>(v)) && d@ == crate::vprelude::enc(vv(v)),
+            r matches Err(e) ==> self.enc_rel(Err::<Value, CoseError>(e)),» {«
         broadcast use axiom_question_mark_uses_from;»
         let mut data = Vec::new();
         crate::vprelude::into_writer_vec(&self.to_cbor_value()?, &mut data)?;
@@ -245,6 +245,18 @@ pub enum Label {
 impl CborSerializable for Label {}«
 use crate::vprelude::*;
 
+/// data-model value a label encodes to
+pub open spec fn label_cv(l: Label) -> CV { match l { Label::Int(i) => CV::Int(i as int), Label::Text(t) => CV::Text(t@) } }
+pub open spec fn reg_cv<T: EnumI64>(l: RegisteredLabel<T>) -> CV {
+    match l { RegisteredLabel::Assigned(a) => CV::Int(a.spec_to_i64() as int), RegisteredLabel::Text(t) => CV::Text(t@) }
+}
+pub open spec fn regp_cv<T: EnumI64 + WithPrivateRange>(l: RegisteredLabelWithPrivate<T>) -> CV {
+    match l {
+        RegisteredLabelWithPrivate::PrivateUse(i) => CV::Int(i as int),
+        RegisteredLabelWithPrivate::Assigned(a) => CV::Int(a.spec_to_i64() as int),
+        RegisteredLabelWithPrivate::Text(t) => CV::Text(t@),
+    }
+}
 pub open spec fn label_cmp(a: Label, b: Label) -> Ordering {
     match (a, b) {
         (Label::Int(x), Label::Int(y)) => int_cmp(rank(x), rank(y)),
@@ -374,7 +386,7 @@ impl AsCborValue for Label {«
             _ => r matches Err(e) && e is UnexpectedItem,
         }
     }
-    open spec fn enc_rel(self, r: Result<Value>) -> bool { r matches Ok(v) && label_of(v) == Some(self) }»
+    open spec fn enc_rel(self, r: Result<Value>) -> bool { r matches Ok(v) && label_of(v) == Some(self) && vv(v) == label_cv(self) }»
     fn from_cbor_value(value: Value) ->« (r:» Result<Self>«)» {« broadcast use axiom_question_mark_uses_from;»
         match value {
             Value::Integer(i) => Ok(Label::Int(i.try_into()?)),
@@ -462,7 +474,7 @@ impl<T: EnumI64> PartialOrd for RegisteredLabel<T> {
 }
 
 impl<T: EnumI64> AsCborValue for RegisteredLabel<T> {«
-    open spec fn enc_rel(self, r: Result<Value>) -> bool { r matches Ok(v) && reg_of::<T>(v) == Some(self) }
+    open spec fn enc_rel(self, r: Result<Value>) -> bool { r matches Ok(v) && reg_of::<T>(v) == Some(self) && vv(v) == reg_cv(self) }
     open spec fn dec_rel(value: Value, r: Result<Self>) -> bool { match value {
             Value::Integer(i) => if !in_i64(int_val(i)) { r matches Err(e) && e is OutOfRangeIntegerValue }
                 else { match T::spec_from_i64(int_val(i) as i64) {
@@ -558,7 +570,7 @@ impl<T: EnumI64 + WithPrivateRange> PartialOrd for RegisteredLabelWithPrivate<T>
 }
 
 impl<T: EnumI64 + WithPrivateRange> AsCborValue for RegisteredLabelWithPrivate<T> {«
-    open spec fn enc_rel(self, r: Result<Value>) -> bool { r matches Ok(v) && (wf_regp(self) ==> regp_of::<T>(v) == Some(self)) }
+    open spec fn enc_rel(self, r: Result<Value>) -> bool { r matches Ok(v) && (wf_regp(self) ==> regp_of::<T>(v) == Some(self)) && vv(v) == regp_cv(self) }
     open spec fn dec_rel(value: Value, r: Result<Self>) -> bool { match value {
             Value::Integer(i) => if !in_i64(int_val(i)) { r matches Err(e) && e is OutOfRangeIntegerValue }
                 else { match T::spec_from_i64(int_val(i) as i64) {
